@@ -15,7 +15,12 @@ open Mdsort Mdsort.Model
 issues no mutating call (no create, write, rename, unlink, utimensat, mkdir, rmdir) and starts no
 process for an action: a `fork` occurs only if some rule tree has a `command` CONDITION
 (`Proofs.confHasCommand conf`; conditions are evaluated under `-d` exactly as otherwise - `expr_eval_command`
-runs the program -, actions are never executed: `C05_dry_runs_no_action`). -/
+runs the program -, actions are never executed: `C05_dry_runs_no_action`).
+
+(Audit au1 noted that before package p4 "`c ≠ .fork`" held only because the world model had no call for `command` CONDITIONS -
+they were evaluated with the constant oracle -1 - while mdsort does run the program of a `command` condition under `-d`.  The
+conditions are now evaluated inside the run, `Model.evalP`; the statement says when a `fork` occurs, and the world-level theorems
+of C01-C06 speak about runs in which those conditions are answered by the operating system.) -/
 theorem C05_dry_no_mutation (env : PEnv) (orc : EvalOracles) (ok : Bool) (conf : List ConfBlock) (files : Files) (input : Bytes)
     (w : World) (plan : Plan) (hd : env.dryrun = true) (hm : env.stdinMode = false) :
     ∀ c ∈ Proofs.callsOf plan (mainP env orc ok conf files input) w,
@@ -72,7 +77,9 @@ complete description of a call `c` issued when the calls and results so far are 
 
 /-- `-d -`, whatever the calls return (hence under every fault plan and every interleaving with other
 processes), whatever the configuration, the registry and the input are: every call of the run is one of
-the calls listed above. -/
+the calls listed above.  (Audit au1: "the run" is the model's - the spool is walked with fuel 64 and cleaned with `loop 64`;
+an oracle whose `readdir` returns more than that many names makes the model stop where mdsort would continue.  Under `runPlan`
+- the spool holds one file - the fuel suffices: `C04_stdin_spool_removed` could not hold otherwise.) -/
 theorem C05_dry_stdin (env : PEnv) (orc : EvalOracles) (ok : Bool) (conf : List ConfBlock) (files : Files) (input : Bytes)
     (hd : env.dryrun = true) (hm : env.stdinMode = true) (orcl : Nat → Call → Res) :
     ∀ i c r, (runOracle orcl (mainP env orc ok conf files input) 0 []).2[i]? = some (c, r) →
@@ -89,7 +96,9 @@ theorem C05_dry_stdin_plan (env : PEnv) (orc : EvalOracles) (ok : Bool) (conf : 
         (((runPlan plan (mainP env orc ok conf files input) w 0 []).2.1.trace.drop w.trace.length).take i) c :=
   Proofs.dry_stdin_calls_plan env orc ok conf files input w plan hd hm
 
-/-- Read for the mutating calls only: a process is started only for a `command` condition, and a mutating call is the
+/-- (Audit au1: a reading lemma - the hypothesis `DrySpoolCall env cm sa tr c` contains the conclusion, this is its projection
+`DrySpoolCall.kinds`; the statement about runs is `C05_dry_stdin`.)
+Read for the mutating calls only: a process is started only for a `command` condition, and a mutating call is the
 `mkdtemp` of the spool template, the `mkdir` of the spool's `new`, an exclusive create or an `unlinkat` in the spool, a
 `write` to the spool file, or the `rmdir` of the spool. -/
 theorem C05_dry_stdin_mutating (env : PEnv) (cm sa : Bool) (tr : List (Call × Res)) (c : Call)
@@ -103,7 +112,8 @@ theorem C05_dry_stdin_mutating (env : PEnv) (cm sa : Bool) (tr : List (Call × R
       (∃ p, c = .rmdir p ∧ (p = [] ∨ Proofs.dry_IsRoot tr p ∨ Proofs.dry_IsNew tr p))) :=
   h.kinds
 
-/-- ... and the spool is gone at the end (`C04_stdin_spool_removed` holds for every rule set, in
+/-- (Audit au1: verbatim `C04_stdin_spool_removed` - there is no hypothesis `env.dryrun = true`.)
+... and the spool is gone at the end (`C04_stdin_spool_removed` holds for every rule set, in
 particular under `-d`): for one `stdin` block and every fault plan that injects nothing from the first
 call of the cleanup on, every directory that exists when `main` returns existed before. -/
 theorem C05_dry_stdin_spool_removed (env : PEnv) (orc : EvalOracles) (conf : List ConfBlock) (files : Files) (input : Bytes)
@@ -114,12 +124,21 @@ theorem C05_dry_stdin_spool_removed (env : PEnv) (orc : EvalOracles) (conf : Lis
     ∀ q, ((runPlan plan (mainP env orc true conf files input) w 0 []).2.1.dir q).isSome → (w.dir q).isSome :=
   Proofs.stdin_spool_removed env orc conf files input expr w plan hm hs hc hin hfresh hplan
 
-/-- `-n -`: only `fopen` / `fclose` of the configuration (`C05_syntax_nothing` has no hypothesis on the mode). -/
+/-- `-n -`: only `fopen` / `fclose` of the configuration (`C05_syntax_nothing` has no hypothesis on the mode; audit au1: this
+is that theorem again, `_hm` is not used). -/
 theorem C05_syntax_stdin (env : PEnv) (orc : EvalOracles) (ok : Bool) (conf : List ConfBlock) (files : Files) (input : Bytes)
     (w : World) (plan : Plan) (hn : env.syntaxOnly = true) (_hm : env.stdinMode = true) :
     Proofs.callsOf plan (mainP env orc ok conf files input) w = [.fopen env.confpath] ∨
     ∃ h, Proofs.callsOf plan (mainP env orc ok conf files input) w = [.fopen env.confpath, .fclose h] :=
   Proofs.syntax_only_calls env orc ok conf files input w plan hn
+
+/-- Non-vacuity of `C05_dry_stdin_mutating` (added by audit au1): at the start of the example run the `mkdtemp` of the spool
+template is a `DrySpoolCall`, and it is mutating. -/
+example : Proofs.DrySpoolCall { Proofs.StdinExample.env0 with dryrun := true } false false []
+      (.mkdtemp (Proofs.World.spoolRoot { Proofs.StdinExample.env0 with dryrun := true })) ∧
+    (Call.mkdtemp (Proofs.World.spoolRoot { Proofs.StdinExample.env0 with dryrun := true })).mutating = true :=
+  ⟨show pathjoin PATH_MAX ({ Proofs.StdinExample.env0 with dryrun := true } : PEnv).tmpdir (ofString "mdsort-XXXXXXXX") =
+      some (Proofs.World.spoolRoot { Proofs.StdinExample.env0 with dryrun := true }) by decide +kernel, rfl⟩
 
 /-! Non-vacuity: the stdin example of C04 (10-byte message, `stdin { match all move "/m/inbox" }`,
 `/m/inbox/new` present) run with `-d`. -/
@@ -168,7 +187,7 @@ theorem C05_dry_world_unchanged (env : PEnv) (orc : EvalOracles) (ok : Bool) (co
   Proofs.World.dry_world_unchanged env orc ok conf files input w plan hd hm hns w' hw'
 
 /-- Read entry by entry: every name bound before is bound to the same file, with the same content (visible and durable)
-and the same modification time. -/
+and the same modification time.  (Audit au1: a reading lemma for `SameDisk`, no statement about runs.) -/
 theorem C05_dry_world_entries (w w' : World) (h : Proofs.World.SameDisk w w') (q n : Bytes) (fid : Nat)
     (hl : w.lookup q n = some fid) :
     w'.lookup q n = some fid ∧ w'.file fid = w.file fid ∧ w'.mtime fid = w.mtime fid ∧ w'.dir q = w.dir q :=
@@ -187,7 +206,7 @@ theorem C05_dry_stdin_world_unchanged (env : PEnv) (orc : EvalOracles) (ok : Boo
     Proofs.World.PreExisting w w' :=
   Proofs.World.dry_stdin_world_unchanged env orc ok conf files input w plan hd hm hs w' hw'
 
-/-- Entry by entry, as above. -/
+/-- Entry by entry, as above.  (Audit au1: a reading lemma for `PreExisting`.) -/
 theorem C05_dry_stdin_world_entries (w w' : World) (h : Proofs.World.PreExisting w w') (q n : Bytes) (fid : Nat)
     (hl : w.lookup q n = some fid) (hfid : fid < w.nextFid) :
     w'.lookup q n = some fid ∧ w'.file fid = w.file fid ∧ w'.mtime fid = w.mtime fid :=
